@@ -32,7 +32,7 @@ VARIABLES l, viol, run, maxdur, confirmed, offscript, ntoks, nruns
 Trace == ndJsonDeserialize(IOEnv.VERIF_TRACE)
 Ev == Trace[l]
 
-frozen == <<now, slack, ninst, nextTok, pc, tok, tokk, lastNow, overdue, waitFor, deadline, tnext, hist>>
+frozen == <<now, slack, ninst, nextTok, pc, tok, tokk, lastNow, overdue, waitFor, deadline, tnext, hist, lz, want>>
 tvars == <<vars, l, viol, run, maxdur, confirmed, offscript, ntoks, nruns>>
 
 TraceInit ==
@@ -67,7 +67,7 @@ OnScript(e) == /\ Abs((e.a - e.tok) - e.pa * TickUs) <= TolUs
 
 TraceTok ==
     /\ Ev.ev = "tok"
-    /\ LET r == [k |-> Ev.k, tok |-> Ev.tok, a |-> Ev.a, b |-> Ev.b, d |-> Ev.d, r |-> Ev.dur, i |-> 1]
+    /\ LET r == [k |-> Ev.k, tok |-> Ev.tok, a |-> Ev.a, b |-> Ev.b, d |-> Ev.d, r |-> Ev.dur, i |-> 1, lz |-> 0]
            decided == r.d \in {"fire", "discard"}
            scripted == Ev.exp # ""
        IN  /\ last' = [last EXCEPT ![1] = r]
